@@ -361,11 +361,28 @@ func (m *lockModel) fieldsOf(fn *ssa.Function, v ssa.Value) map[int]bool {
 					rec(st.Val, d+1)
 				}
 			}
+		case *ssa.Call:
+			// a helper method of the same object handing out (part of) one of its fields: h.queueFor(msg)
+			cal := x.Call.StaticCallee()
+			if cal == nil || x.Call.IsInvoke() || len(x.Call.Args) == 0 || !m.isRecv(fn, x.Call.Args[0]) || m.recvOf[cal] == nil || fieldsDepth > 2 {
+				return
+			}
+			fieldsDepth++
+			for _, ret := range returnsOf(cal) {
+				for _, res := range ret.Results {
+					for f := range m.fieldsOf(cal, res) {
+						out[f] = true
+					}
+				}
+			}
+			fieldsDepth--
 		}
 	}
 	rec(v, 0)
 	return out
 }
+
+var fieldsDepth int
 
 type access struct {
 	fn    *ssa.Function
